@@ -225,8 +225,8 @@ func c13Run(c *core.Ctx) {
 	// pairs of positions (level 5 only), shallow
 	for _, fam := range []string{"php7", "php5"} {
 		f := corpus.MustFam(fam)
-		for _, it := range f.Items(5) {
-			if it.ScanOK && countSub(it.Why, "pair") > 0 && c.Next() {
+		for _, it := range f.Items(6) {
+			if it.ScanOK && (countSub(it.Why, "pair") > 0 || countSub(it.Why, "list") > 0) && c.Next() {
 				setBlock(&srcCase{})
 				c13Tree(c, []byte(it.Src), verStr(f.V), 2, nil)
 			}
